@@ -224,6 +224,17 @@ def unmodelled_in(run, chk, rule, construct):
     for e in sm[:2]:
         chk.ob(rule, construct + "[broadcast]", "the operands of an element-wise operation have the same length", False,
                derived="lengths %r and %r" % (e.dims[0], e.dims[1]), loc=e.loc, stmt=e.stmt, detail="the operation raises for every record")
+    # a value held in module-level state (a memo dictionary, a module-level table) is modified in place: the next call -- with other
+    # arguments, from another object -- finds it modified (results depend on the calls made before)
+    # (arithmetic in place on an ARRAY taken out of the store; filling / clearing the store itself -- memo[key] = v, memo.clear() -- is what a
+    # memo does and is not meant)
+    gm = [e for e in run.I.events if e.kind == "mutation" and any(str(t_).startswith("g:") for t_ in (e.origins or ())) and
+          (str(e.how).startswith("augassign") or e.how == "out=" or
+           (e.how == "subscript-store" and e.target is not None and e.target.kind == K_ARRAY))]
+    for e in gm[:2]:
+        chk.ob(rule, construct + "[module state]", "no value kept in module-level state is modified in place", False,
+               derived="in-place %s on a value held in %s" % (e.how, sorted(str(t_) for t_ in e.origins if str(t_).startswith("g:"))[:2]),
+               loc=e.loc, stmt=e.stmt, detail="later calls see the modified value")
     ui = [e for e in run.I.events if e.kind == "uninit-read"]
     for e in ui[:2]:
         chk.ob(rule, construct + "[initialised]", "a buffer from np.empty is completely written before it is read", False, derived=e.what,
